@@ -1156,6 +1156,39 @@ def model(ex, st, c, args):
         if cur.variant == 0:
             return none()
         return some(Ref(cell, list(path) + [('downcast', 'Some'), ('field', 0)], mut=(c == 'Option::as_mut')))
+    # ----- std::mem
+    if c in ('std::mem::replace', 'core::mem::replace', 'std::mem::take', 'core::mem::take'):
+        cell, path = ex.deref_target(args[0])
+        cur = ex.load(cell, path)
+        if c.endswith('replace'):
+            ex.store(cell, path, args[1])
+            return cur
+        # take: leave Default::default() behind
+        if isinstance(cur, VecV):
+            new = VecV([])
+        elif isinstance(cur, SStr):
+            new = SStr([])
+        elif isinstance(cur, HashMapV):
+            new = HashMapV([], [])
+        elif isinstance(cur, Adt) and cur.ty == 'Option':
+            new = none()
+        elif isinstance(cur, Int):
+            new = Int(z3.BitVecVal(0, cur.t.size()), cur.signed)
+        elif z3.is_expr(cur) and z3.is_bool(cur):
+            new = z3.BoolVal(False)
+        elif isinstance(cur, Fl):
+            new = Fl(z3.FPVal(0.0, F64))
+        else:
+            raise Unsupported('mem::take of %r' % (cur,))
+        ex.store(cell, path, new)
+        return cur
+    if c in ('std::mem::swap', 'core::mem::swap'):
+        c1, p1 = ex.deref_target(args[0])
+        c2, p2 = ex.deref_target(args[1])
+        v1, v2 = ex.load(c1, p1), ex.load(c2, p2)
+        ex.store(c1, p1, v2)
+        ex.store(c2, p2, v1)
+        return mkunit()
     # ----- thread-local storage and interior mutability (state that outlives a call: C12)
     if c == 'LocalKey::new':
         return Adt('LocalKey', 0, [args[0]])
@@ -1529,6 +1562,11 @@ def model(ex, st, c, args):
             if it.pos >= it.end:
                 return none()
             return some(Ref(st.new_cell(Ref(it.ref.cell, list(it.ref.path) + [('index', it.pos)])), []))
+        if isinstance(it, OwnIter):
+            if it.pos >= len(it.items):
+                return none()
+            end = ex.ref_chain_end(args[0])
+            return some(Ref(end.cell, list(end.path) + [('attr', 'it'), ('attr', 'items'), ('index', it.pos)]))
         raise Unsupported('peek on %r' % (it,))
     if c.endswith(' as Iterator>::filter_map'):
         return AdaptV('filter_map', args[0], args[1])
@@ -1601,6 +1639,71 @@ def model(ex, st, c, args):
         if i is None:
             return none()
         return some(Ref(r.cell, list(r.path) + [('mapval', i)]))
+    # ----- the entry API
+    if c == 'HashMap::entry':
+        mref = ex.ref_chain_end(args[0])
+        m = D(args[0])
+        key = to_sstr(ex, args[1])
+        i = map_lookup(ex, st, m, key)
+        if i is None:
+            return Adt('Entry', 1, [Adt('VacantEntry', 0, [mref, SStr(list(key.items))])])
+        return Adt('Entry', 0, [Adt('OccupiedEntry', 0, [mref, usize(i)])])
+    if c.startswith(('OccupiedEntry::', 'std::collections::hash_map::OccupiedEntry::', 'VacantEntry::', 'std::collections::hash_map::VacantEntry::',
+                     'std::collections::hash_map::Entry::', 'Entry::')) and args:
+        meth = c.split('::')[-1]
+        e = D(args[0]) if isinstance(args[0], Ref) else args[0]
+        if isinstance(e, Adt) and e.ty == 'Entry':
+            inner = e.fields[0]
+            occupied = e.variant == 0
+            if meth == 'key':
+                e = inner
+            elif meth in ('or_insert', 'or_insert_with', 'or_default', 'or_insert_with_key'):
+                mref = inner.fields[0]
+                m = ex.load(mref.cell, mref.path)
+                if occupied:
+                    return Ref(mref.cell, list(mref.path) + [('mapval', inner.fields[1].t.as_long())], mut=True)
+                if meth == 'or_insert':
+                    m.keys.append(inner.fields[1])
+                    m.vals.append(args[1])
+                    return Ref(mref.cell, list(mref.path) + [('mapval', len(m.vals) - 1)], mut=True)
+                raise Unsupported(c + ' on a vacant entry')
+            elif meth == 'and_modify':
+                if not occupied:
+                    return e
+                raise Unsupported(c + ' on an occupied entry')
+            else:
+                raise Unsupported(c)
+        if isinstance(e, Adt) and e.ty == 'OccupiedEntry':
+            mref = e.fields[0]
+            idx = e.fields[1].t.as_long()
+            m = ex.load(mref.cell, mref.path)
+            slot = Ref(mref.cell, list(mref.path) + [('mapval', idx)])
+            if meth == 'get':
+                return slot
+            if meth in ('get_mut', 'into_mut'):
+                return Ref(slot.cell, slot.path, mut=True)
+            if meth == 'key':
+                return Ref(mref.cell, list(mref.path) + [('mapkey', idx)])
+            if meth == 'insert':
+                old_v = m.vals[idx]
+                m.vals[idx] = args[1]
+                return old_v
+            if meth in ('remove', 'remove_entry'):
+                k_, v_ = m.keys.pop(idx), m.vals.pop(idx)
+                return v_ if meth == 'remove' else Adt('tuple', 0, [k_, v_])
+            raise Unsupported(c)
+        if isinstance(e, Adt) and e.ty == 'VacantEntry':
+            mref = e.fields[0]
+            m = ex.load(mref.cell, mref.path)
+            if meth == 'insert':
+                m.keys.append(e.fields[1])
+                m.vals.append(args[1])
+                return Ref(mref.cell, list(mref.path) + [('mapval', len(m.vals) - 1)], mut=True)
+            if meth == 'key':
+                return Ref(st.new_cell(e.fields[1]), [])
+            if meth == 'into_key':
+                return e.fields[1]
+            raise Unsupported(c)
     if c == 'HashMap::insert':
         r = args[0]
         m_ = D(r)
